@@ -22,6 +22,10 @@ func runC01(s *sim.Sim) {
 	zones := []string{""}
 	if c.zoneAware {
 		zones = []string{"a", "b", "c", "d", "e"}[:s.Range(1, 5, "zones")]
+		if s.Chance(0.3, "some-instances-without-zone") {
+			// e.g. mid-migration to zone labels: instances without a zone are not subject to the one-per-zone rule
+			zones = append(append([]string{}, zones...), "", "")
+		}
 	} else if s.Chance(0.5, "zones-anyway") {
 		zones = []string{"", "a", "b"}
 	}
